@@ -40,5 +40,9 @@ long long tok_ll(const char *t);
 unsigned long long tok_ull(const char *t);
 
 /* canonical return: ok(n) for n >= 0, err for negative (size_t returns are read as signed) */
-#define LIB(expr) do { in_lib = 1; expr; in_lib = 0; } while (0)
+/* before every library call the stack region the call is about to use is filled with a pattern derived from the case
+   line (or fixed by the env op), so that an uninitialised automatic object shows up as a difference */
+void dirty_stack(void);
+void launder(void *p);     /* the object escapes: the compiler may not assume its contents across the call */
+#define LIB(expr) do { dirty_stack(); in_lib = 1; expr; in_lib = 0; } while (0)
 #endif
